@@ -151,6 +151,8 @@ func (w *c08World) jsonBody(c *c08Case, rng *rand.Rand) string {
 			return `"` + strings.Repeat("1", 300) + `"`
 		case "int-archived":
 			return fmt.Sprint(w.slot)
+		case "int-first":
+			return fmt.Sprint(w.l1.built.Blocks[0].Spec.Slot)
 		case "int-absent":
 			return fmt.Sprint(w.skipped)
 		case "negative":
@@ -298,6 +300,8 @@ func (w *c08World) doGrpc(c *c08Case, multi *MultiEpoch) (outcome, detail string
 	switch c.SlotC {
 	case "archived":
 		slot = w.slot
+	case "first-of-epoch":
+		slot = w.l1.built.Blocks[0].Spec.Slot
 	case "skipped":
 		slot = w.skipped
 	case "huge":
